@@ -449,6 +449,7 @@ package bcl
 //@   assert [C17,C01] expression_statement_discards_its_value: at emitOp#1: $op == opPOP
 //
 //@ func blockStmt
+//@   assert [C17,C20] the_optional_terminator_comes_after_a_statement: at match#2.advance#1: g.consumed > prev(g.consumed)
 //@   snapshot typetok: at consume#1.advance#1: p.current.val
 //@   assert [C03,C05] the_block_type_is_the_identifier_as_written: at identConst#1: $name == $typetok
 //@   assert [C17] a_terminator_never_follows_a_terminator: at match.advance#1: p.hadError || p.current.typ != tSEMICOLON || p.prev.typ != tSEMICOLON
@@ -478,6 +479,7 @@ package bcl
 //
 //@ func parse
 //@   assert [C17] a_terminator_never_follows_a_terminator: at match.advance#1: p.hadError || p.current.typ != tSEMICOLON || p.prev.typ != tSEMICOLON
+//@   assert [C17,C20] the_optional_terminator_comes_after_a_statement: at match.advance#1: p.current.typ != tSEMICOLON || g.consumed > prev(g.consumed)
 //@   ghostinit sd = 0; pend = F0(); bd = 0; uninit = 0; njopen = 0; maxtarget = 0; consumed = 0; lastfin = false; lasterr = false; diags = 0; lx_fin = false; lx_err = false; ev_close_tokens = 0; ev_bytes_inputs = 0; ev_send_tokens = 0; ev_recv_tokens = 0; ev_closed_inputs = false; bk = 2
 //@   ensures [C17] error_iff_diagnostic: ((result2 != nil) <==> g.diags > 0) && g.diags >= 0
 //@   ensures result0 != nil
